@@ -186,7 +186,7 @@ def _has_loop_escape(body):
     return v.found
 
 
-KEEP_DECORATORS = {"property", "dataclass", "staticmethod"}
+KEEP_DECORATORS = {"property", "dataclass", "staticmethod", "cached_property", "classmethod"}
 
 
 class Xform(ast.NodeTransformer):
